@@ -1,4 +1,4 @@
-(* C12 — proof scripts. *)
+(* C12 — proof scripts (the model is in Model.v; statements are collected in Props.v). *)
 From Coq Require Import ZArith QArith Qround Qabs List Bool NArith Lia.
 Require Import QV.C12.Model.
 Import ListNotations.
@@ -6,6 +6,7 @@ Import ListNotations.
 Definition bind2 (a b : result Q) (f : Q -> Q -> result Q) : result Q :=
   bind a (fun x => bind b (fun y => f x y)).
 
+(* ---- builders ---------------------------------------------------------------------------------------------------- *)
 Lemma build_correct : forall r o a b,
   eval r (build o a b) = bind2 (eval r a) (eval r b) (bop_val o).
 Proof.
@@ -14,3 +15,285 @@ Proof.
   destruct (eval r b) as [y|]; cbn; [|reflexivity].
   destruct (Qeq_bool y 0); reflexivity.
 Qed.
+
+Lemma build_neg_correct : forall r a, eval r (build_neg a) = bind (eval r a) (fun x => Ok (- x)).
+Proof. reflexivity. Qed.
+
+(* ---- small facts about lists of names ----------------------------------------------------------------------------- *)
+Lemma nmem_In : forall x l, nmem x l = true <-> In x l.
+Proof.
+  intros x l. unfold nmem. rewrite existsb_exists. split.
+  - intros [y [Hy E]]. apply N.eqb_eq in E. subst; assumption.
+  - intros H. exists x. split; [assumption | apply N.eqb_refl].
+Qed.
+
+Lemma In_nremove : forall x i l, In x (nremove i l) <-> In x l /\ x <> i.
+Proof.
+  intros x i l. unfold nremove. rewrite filter_In. split; intros [H1 H2]; split; auto.
+  - intros ->. rewrite N.eqb_refl in H2. discriminate.
+  - apply negb_true_iff. apply N.eqb_neq. assumption.
+Qed.
+
+Lemma lookup_remove_same : forall A i (l : list (N * A)), lookup (remove_key i l) i = None.
+Proof.
+  intros A i l. induction l as [|[y v] l IH]; cbn; [reflexivity|].
+  destruct (N.eqb y i) eqn:E; cbn; [assumption|].
+  rewrite N.eqb_sym, E. assumption.
+Qed.
+
+Lemma lookup_remove_other : forall A i x (l : list (N * A)), x <> i -> lookup (remove_key i l) x = lookup l x.
+Proof.
+  intros A i x l Hx. induction l as [|[y v] l IH]; cbn; [reflexivity|].
+  destruct (N.eqb y i) eqn:E; cbn.
+  - apply N.eqb_eq in E. subst y. destruct (N.eqb x i) eqn:E2; [apply N.eqb_eq in E2; contradiction | assumption].
+  - destruct (N.eqb x y); [reflexivity | assumption].
+Qed.
+
+(* ---- evaluation only depends on the free names -------------------------------------------------------------------- *)
+Fixpoint fns (e : expr) : list N :=
+  match e with
+  | Const _ | Nan | Var _ => []
+  | Un (UFn f) a => f :: fns a
+  | Un _ a => fns a
+  | Bin _ a b => fns a ++ fns b
+  | Ite c a b => fns c ++ fns a ++ fns b
+  | Sum _ lo hi body => fns lo ++ fns hi ++ fns body
+  | Idx _ i => fns i
+  | IBc a _ i => fns a ++ fns i
+  end.
+
+Lemma sum_range_ext : forall f g n lo, (forall k, f k = g k) -> sum_range f lo n = sum_range g lo n.
+Proof.
+  intros f g n. induction n as [|n IH]; intros lo H; cbn; [reflexivity|].
+  rewrite H, (IH (lo + 1)%Z H). reflexivity.
+Qed.
+
+Lemma eval_agree : forall e r r',
+  (forall x, In x (fv e) -> sc r x = sc r' x) ->
+  (forall x, In x (fvv e) -> vc r x = vc r' x) ->
+  (forall f, In f (fns e) -> forall q, fn r f q = fn r' f q) ->
+  eval r e = eval r' e.
+Proof.
+  induction e as [q| |x|o a IHa|o a IHa b IHb|c IHc a IHa b IHb|i lo IHlo hi IHhi body IHbody|x i IHi|a IHa n i IHi];
+    intros r r' Hs Hv Hf; cbn in *.
+  - reflexivity.
+  - reflexivity.
+  - rewrite (Hs x) by (left; reflexivity). reflexivity.
+  - assert (E : eval r a = eval r' a).
+    { apply IHa; auto. intros f H q. apply Hf. destruct o; auto. right; assumption. }
+    rewrite E. destruct (eval r' a) as [v|]; cbn; [|reflexivity].
+    destruct o; cbn; try reflexivity. rewrite (Hf f) by (left; reflexivity). reflexivity.
+  - rewrite (IHa r r'), (IHb r r'); auto; intros; (apply Hs || apply Hv || apply Hf); apply in_or_app; auto.
+  - rewrite (IHc r r'), (IHa r r'), (IHb r r'); auto; intros; (apply Hs || apply Hv || apply Hf);
+      apply in_or_app; auto; right; apply in_or_app; auto.
+  - rewrite (IHlo r r'), (IHhi r r');
+      try (intros; (apply Hs || apply Hv || apply Hf); apply in_or_app; auto; right; apply in_or_app; auto; fail).
+    destruct (eval r' lo) as [l|]; cbn; [|reflexivity].
+    destruct (eval r' hi) as [h|]; cbn; [|reflexivity].
+    destruct (as_int l) as [lz|]; [|reflexivity].
+    destruct (as_int h) as [hz|]; [|reflexivity].
+    apply sum_range_ext. intros k. apply IHbody.
+    + intros x Hx. cbn. destruct (N.eqb x i) eqn:E; [reflexivity|].
+      apply Hs. apply in_or_app; right. apply in_or_app; right. apply In_nremove. split; [assumption|].
+      apply N.eqb_neq; assumption.
+    + intros x Hx. cbn. apply Hv. apply in_or_app; right. apply in_or_app; right. assumption.
+    + intros f Hx q. cbn. apply Hf. apply in_or_app; right. apply in_or_app; right. assumption.
+  - rewrite (Hv x) by (left; reflexivity). destruct (vc r' x) as [l|]; [|reflexivity].
+    rewrite (IHi r r'); auto; intros y Hy; apply Hv; right; assumption.
+  - rewrite (IHa r r'), (IHi r r'); auto; intros; (apply Hs || apply Hv || apply Hf); apply in_or_app; auto.
+Qed.
+
+(* ---- the substitution lemma -------------------------------------------------------------------------------------- *)
+(* equal values, or both without a value (the kind of error may differ: a term that fails inside the substituted
+   formula shows up as an unbound name in the extended scope) *)
+Definition rsim {A} (a b : result A) : Prop :=
+  match a, b with
+  | Ok x, Ok y => x = y
+  | Err _, Err _ => True
+  | _, _ => False
+  end.
+
+Lemma rsim_refl : forall A (a : result A), rsim a a.
+Proof. intros A [x|e]; cbn; auto. Qed.
+
+Lemma rsim_bind : forall A B (a b : result A) (f g : A -> result B),
+  rsim a b -> (forall x, rsim (f x) (g x)) -> rsim (bind a f) (bind b g).
+Proof.
+  intros A B [x|e] [y|e'] f g H Hf; cbn in *; try contradiction; auto. subst. apply Hf.
+Qed.
+
+Lemma rsim_sum_range : forall f g n lo, (forall k, rsim (f k) (g k)) -> rsim (sum_range f lo n) (sum_range g lo n).
+Proof.
+  intros f g n. induction n as [|n IH]; intros lo H; cbn; [reflexivity|].
+  apply rsim_bind; [apply H|]. intros v. apply rsim_bind; [apply IH; assumption|]. intros w. cbn. reflexivity.
+Qed.
+
+Lemma subst_sim : forall e s r, capture_free s e = true -> rsim (eval r (subst s e)) (eval (ext r s) e).
+Proof.
+  induction e as [q| |x|o a IHa|o a IHa b IHb|c IHc a IHa b IHb|i lo IHlo hi IHhi body IHbody|x i IHi|a IHa n i IHi];
+    intros s r Hc; cbn in Hc |- *.
+  - reflexivity.
+  - exact I.
+  - destruct (lookup s x) as [t|]; cbn.
+    + destruct (eval r t); cbn; auto.
+    + destruct (sc r x); cbn; auto.
+  - apply rsim_bind; [apply IHa; assumption|]. intros v. apply rsim_refl.
+  - apply andb_prop in Hc as [H1 H2].
+    apply rsim_bind; [apply IHa; assumption|]. intros v.
+    apply rsim_bind; [apply IHb; assumption|]. intros w. apply rsim_refl.
+  - apply andb_prop in Hc as [H12 H3]. apply andb_prop in H12 as [H1 H2].
+    apply rsim_bind; [apply IHc; assumption|]. intros t.
+    destruct (truthy t); [apply IHa | apply IHb]; assumption.
+  - apply andb_prop in Hc as [H123 H4]. apply andb_prop in H123 as [H12 H3]. apply andb_prop in H12 as [H1 H2].
+    apply rsim_bind; [apply IHlo; assumption|]. intros l.
+    apply rsim_bind; [apply IHhi; assumption|]. intros h.
+    destruct (as_int l) as [lz|]; [|exact I].
+    destruct (as_int h) as [hz|]; [|exact I].
+    apply rsim_sum_range. intros k.
+    specialize (IHbody (remove_key i s) (set_sc r i (inject_Z k)) H4).
+    replace (eval (set_sc (ext r s) i (inject_Z k)) body)
+      with (eval (ext (set_sc r i (inject_Z k)) (remove_key i s)) body); [exact IHbody|].
+    apply eval_agree; [| reflexivity | reflexivity].
+    intros x Hx. cbn. destruct (N.eqb x i) eqn:E.
+    + apply N.eqb_eq in E. subst x. rewrite lookup_remove_same. cbn. rewrite ?N.eqb_refl. reflexivity.
+    + apply N.eqb_neq in E. rewrite forallb_forall in H3. specialize (H3 x Hx).
+      rewrite (lookup_remove_other _ i x s E) in *.
+      destruct (lookup s x) as [t|].
+      * rewrite (eval_agree t (set_sc r i (inject_Z k)) r); [reflexivity | | reflexivity | reflexivity].
+        intros y Hy. cbn. destruct (N.eqb y i) eqn:E2; [|reflexivity].
+        apply N.eqb_eq in E2. subst y. apply negb_true_iff in H3.
+        assert (nmem i (fv t) = true) by (apply nmem_In; assumption). congruence.
+      * cbn. apply N.eqb_neq in E. rewrite ?E. reflexivity.
+  - destruct (vc r x) as [l|]; [|exact I].
+    apply rsim_bind; [apply IHi; assumption|]. intros v. apply rsim_refl.
+  - apply andb_prop in Hc as [H1 H2].
+    apply rsim_bind; [apply IHa; assumption|]. intros v.
+    apply rsim_bind; [apply IHi; assumption|]. intros w. apply rsim_refl.
+Qed.
+
+Lemma subst_value : forall e s r v, capture_free s e = true ->
+  (eval r (subst s e) = Ok v <-> eval (ext r s) e = Ok v).
+Proof.
+  intros e s r v Hc. pose proof (subst_sim e s r Hc) as H. unfold rsim in H.
+  destruct (eval r (subst s e)) as [x|]; destruct (eval (ext r s) e) as [y|]; try contradiction.
+  - subst. reflexivity.
+  - split; discriminate.
+Qed.
+
+(* the guard is necessary: the summation index is captured *)
+Definition capture_e : expr := Sum 10%N (Const 0) (Const 2) (Bin BMul (Var 2%N) (Var 10%N)).   (* Sum(c*k, (k, 0, 2)) *)
+Definition capture_s : list (N * expr) := [(2%N, Var 10%N)].                                    (* c := k *)
+Definition capture_r : env := mk_env [(10%N, 10 # 1)] [] [].                                    (* k = 10 *)
+
+Lemma subst_capture_witness :
+  exists x y, eval capture_r (subst capture_s capture_e) = Ok x /\ eval (ext capture_r capture_s) capture_e = Ok y /\
+              ~ x == y.
+Proof.
+  eexists. eexists. split; [vm_compute; reflexivity|]. split; [vm_compute; reflexivity|].
+  intros H. vm_compute in H. discriminate.
+Qed.
+
+Lemma capture_guard_rejects_witness : capture_free capture_s capture_e = false.
+Proof. reflexivity. Qed.
+
+(* a non-trivial input satisfying the guard: simultaneous swap under a Sum *)
+Definition swap_e : expr := Sum 10%N (Const 0) (Var 6%N) (Bin BAdd (Bin BMul (Var 0%N) (Var 10%N)) (Var 1%N)).
+Definition swap_s : list (N * expr) := [(0%N, Var 1%N); (1%N, Var 0%N)].
+Lemma capture_guard_nonvacuous : capture_free swap_s swap_e = true /\ subst swap_s swap_e <> swap_e.
+Proof. split; [reflexivity | discriminate]. Qed.
+
+(* ---- partial evaluation with numbers ------------------------------------------------------------------------------- *)
+Definition over (l : list (N * Q)) (r : env) : env :=
+  {| sc := fun x => match lookup l x with Some v => Some v | None => sc r x end; vc := vc r; fn := fn r |}.
+
+Lemma lookup_consts : forall l x, lookup (consts l) x = option_map Const (lookup l x).
+Proof.
+  induction l as [|[y v] l IH]; intros x; cbn; [reflexivity|]. destruct (N.eqb x y); [reflexivity | apply IH].
+Qed.
+
+Lemma remove_key_consts : forall i l, remove_key i (consts l) = consts (remove_key i l).
+Proof.
+  intros i l. unfold remove_key, consts. induction l as [|[y v] l IH]; cbn; [reflexivity|].
+  destruct (N.eqb y i); cbn; rewrite IH; reflexivity.
+Qed.
+
+Lemma capture_free_consts : forall e l, capture_free (consts l) e = true.
+Proof.
+  induction e as [q| |x|o a IHa|o a IHa b IHb|c IHc a IHa b IHb|i lo IHlo hi IHhi body IHbody|x i IHi|a IHa n i IHi];
+    intros l; cbn; auto.
+  - rewrite IHa, IHb; reflexivity.
+  - rewrite IHc, IHa, IHb; reflexivity.
+  - rewrite IHlo, IHhi. rewrite remove_key_consts, IHbody. cbn. rewrite andb_true_r.
+    apply forallb_forall. intros x _. rewrite lookup_consts.
+    destruct (lookup (remove_key i l) x); cbn; reflexivity.
+  - rewrite IHa, IHi; reflexivity.
+Qed.
+
+Lemma ext_consts_over : forall e l r, eval (ext r (consts l)) e = eval (over l r) e.
+Proof.
+  intros e l r. apply eval_agree; try reflexivity.
+  intros x _. cbn. rewrite lookup_consts. destruct (lookup l x); cbn; reflexivity.
+Qed.
+
+Lemma partial_sim : forall e l r, rsim (eval r (subst (consts l) e)) (eval (over l r) e).
+Proof.
+  intros e l r. rewrite <- ext_consts_over. apply subst_sim. apply capture_free_consts.
+Qed.
+
+Lemma partial_value : forall e l r v, eval r (subst (consts l) e) = Ok v <-> eval (over l r) e = Ok v.
+Proof.
+  intros e l r v. rewrite <- ext_consts_over. apply subst_value. apply capture_free_consts.
+Qed.
+
+(* every split of a scope l1 ++ l2 (a name bound twice: the first binding wins, as in the joint dict) *)
+Lemma lookup_app : forall A (l1 l2 : list (N * A)) x,
+  lookup (l1 ++ l2) x = match lookup l1 x with Some v => Some v | None => lookup l2 x end.
+Proof.
+  intros A l1 l2 x. induction l1 as [|[y v] l1 IH]; cbn; [reflexivity|]. destruct (N.eqb x y); [reflexivity | exact IH].
+Qed.
+
+Lemma partial_split : forall e l1 l2 vcs t v,
+  eval (mk_env l2 vcs t) (subst (consts l1) e) = Ok v <-> eval (mk_env (l1 ++ l2) vcs t) e = Ok v.
+Proof.
+  intros e l1 l2 vcs t v. rewrite partial_value.
+  rewrite (eval_agree e (over l1 (mk_env l2 vcs t)) (mk_env (l1 ++ l2) vcs t)); try reflexivity.
+  intros x _. cbn. rewrite lookup_app. reflexivity.
+Qed.
+
+(* ---- closed formulas: comparison and the rational fragment ---------------------------------------------------------- *)
+Lemma closed_eval : forall e r r', closed e = true -> (forall f q, fn r f q = fn r' f q) -> eval r e = eval r' e.
+Proof.
+  intros e r r' Hc Hf. unfold closed in Hc.
+  destruct (fv e) eqn:E1; [|discriminate]. destruct (fvv e) eqn:E2; [|discriminate].
+  apply eval_agree; rewrite ?E1, ?E2; try (intros x []). intros f _ q. apply Hf.
+Qed.
+
+Lemma cmp_sound : forall f c a b res, cmp_model f c a b = Some res ->
+  forall r, (forall g q, fn r g q = f g q) ->
+  exists x y, eval r a = Ok x /\ eval r b = Ok y /\ cmp_eval c x y = res.
+Proof.
+  intros f c a b res H r Hf. unfold cmp_model in H.
+  destruct (closed a) eqn:Ca; [|discriminate]. destruct (closed b) eqn:Cb; [|discriminate]. cbn in H.
+  destruct (eval (empty_env f) a) as [x|] eqn:Ea; [|discriminate].
+  destruct (eval (empty_env f) b) as [y|] eqn:Eb; [|discriminate].
+  inversion H; subst. exists x, y. split; [|split; [|reflexivity]].
+  - rewrite <- Ea. apply closed_eval; auto.
+  - rewrite <- Eb. apply closed_eval; auto.
+Qed.
+
+Lemma cmp_undecided_open : forall f c a b, closed a && closed b = false -> cmp_model f c a b = None.
+Proof. intros f c a b H. unfold cmp_model. rewrite H. reflexivity. Qed.
+
+(* the rational fragment (no sin/cos/exp): the value is determined by the rational inputs alone, it is the exact
+   rational number computed by + - * / floor ... over Q, whatever the interpretation of the transcendental functions *)
+Lemma rational_fragment : forall e r g, fns e = [] ->
+  eval r e = eval {| sc := sc r; vc := vc r; fn := g |} e.
+Proof.
+  intros e r g H. apply eval_agree; try reflexivity. rewrite H. intros f [].
+Qed.
+
+(* evaluate = eval once every name of the formula is in the scope; else the missing name is reported *)
+Lemma evaluate_bound : forall r e, all_bound r e = true -> evaluate r e = eval r e.
+Proof. intros r e H. unfold evaluate. rewrite H. reflexivity. Qed.
+Lemma evaluate_unbound : forall r e, all_bound r e = false -> evaluate r e = Err EUnbound.
+Proof. intros r e H. unfold evaluate. rewrite H. reflexivity. Qed.
